@@ -207,7 +207,30 @@ def gen_value(rng, depth=0, hostile=True, kinds=None):
     raise ValueError(k)
 
 
-CTX_NAMES = ["s1", "s2", "n1", "l1", "l2", "e1", "d1", "d2", "z1", "f1", "t1", "v1", "v2"]
+CTX_NAMES = ["s1", "s2", "n1", "l1", "l2", "e1", "d1", "d2", "z1", "f1", "t1", "v1", "v2", "m1", "m2"]
+ITEM_KEYS = ["k", "name", "label"]
+
+
+def gen_items(rng, hostile=True, depth=0):
+    """a sequence of mappings (rarely of sequences of mappings): every key is, item by item, a real
+    value, `nothing`, or absent — so that `item/key | default` changes its outcome from one
+    iteration to the next, in every order"""
+    n = rng.choice([2, 3, 3, 4])
+    if depth == 0 and rng.random() < 0.12:
+        return ["l", [gen_items(rng, hostile, 1) for _ in range(rng.choice([2, 3]))]]
+    items = []
+    for _ in range(n):
+        pairs = []
+        for key in ITEM_KEYS:
+            r = rng.random()
+            if r < 0.40:
+                pairs.append([key, rng.choice([["s", gen_string(rng, hostile)], ["n", rng.choice([0, 1, 7])],
+                                               ["s", ""], ["c", ["s", gen_string(rng, hostile)]]])])
+            elif r < 0.62:
+                pairs.append([key, ["z"]])
+            # else: absent
+        items.append(["d", pairs])
+    return ["l", items]
 CTX_KINDS = {"s1": ["s"], "s2": ["s"], "n1": ["n"], "l1": ["l"], "l2": ["l"], "e1": ["e"], "d1": ["d"], "d2": ["d"],
              "z1": ["z"], "f1": ["c"], "t1": ["t"]}
 
@@ -215,7 +238,10 @@ CTX_KINDS = {"s1": ["s"], "s2": ["s"], "n1": ["n"], "l1": ["l"], "l2": ["l"], "e
 def gen_context(rng, hostile=True):
     ctx = {}
     for name in CTX_NAMES:
-        if rng.random() < 0.8:
+        if name in ("m1", "m2"):
+            if rng.random() < 0.9:
+                ctx[name] = gen_items(rng, hostile)
+        elif rng.random() < 0.8:
             ctx[name] = gen_value(rng, 0, hostile, CTX_KINDS.get(name))
     # indirection keys (never mutated by the C18 string-content variation)
     ctx["k1"] = ["s", rng.choice(["s1", "l1", "d1", "nope", "k"])]
@@ -263,14 +289,15 @@ class Scope:
     """Names the generator believes are visible: (name, kind) with kind in
     s n l d z c any rep(repeat variable name)"""
 
-    def __init__(self, names=None, reps=None, macros=None, libmacros=None):
+    def __init__(self, names=None, reps=None, macros=None, libmacros=None, items=None):
         self.names = list(names or [])
         self.reps = list(reps or [])
         self.macros = list(macros or [])
         self.libmacros = list(libmacros or [])
+        self.items = list(items or [])       # repeat variables whose items are mappings with ITEM_KEYS
 
     def child(self):
-        return Scope(self.names, self.reps, self.macros, self.libmacros)
+        return Scope(self.names, self.reps, self.macros, self.libmacros, self.items)
 
 
 REP_ATTRS = ["index", "number", "even", "odd", "start", "end", "length", "letter", "Letter", "roman", "Roman"]
@@ -281,8 +308,10 @@ def gen_path(rng, sc, want=None, norep=False):
     if norep and r < 0.22:
         r = 0.6
     names = sc.names or ["s1"]
+    if want == "seq" and sc.items and r < 0.15:
+        return rng.choice(sc.items)          # an item that is itself a sequence (nested repeat)
     if want == "seq" and r < 0.7:
-        cands = [n for n in names if n[0] in "le"] or names
+        cands = [n for n in names if n[0] in "lem"] or names
         p = rng.choice(cands)
         if rng.random() < 0.15:
             p += "/" + rng.choice(["0", "1", "k"])
@@ -306,8 +335,31 @@ def gen_path(rng, sc, want=None, norep=False):
     return p
 
 
+def gen_item_expr(rng, sc):
+    """an expression over the current repeat item whose outcome differs from item to item:
+    value / nothing / fall-through to default, nothing or a literal"""
+    var = rng.choice(sc.items)
+    e = "%s/%s" % (var, rng.choice(ITEM_KEYS))
+    r = rng.random()
+    if r < 0.45:
+        return e + rng.choice([" | default", "|default", " | default"])
+    if r < 0.55:
+        return e + " | %s/%s | default" % (var, rng.choice(ITEM_KEYS))
+    if r < 0.65:
+        return e + " | nothing"
+    if r < 0.75:
+        return e + " | string:(none)"
+    if r < 0.82:
+        return "not:" + e
+    if r < 0.88:
+        return "exists:" + e
+    return e
+
+
 def gen_expr(rng, sc, want=None, depth=0, py=None):
     """A TALES expression (decoded text).  py: None or a list of python: snippets to draw from."""
+    if sc.items and want != "seq" and depth == 0 and rng.random() < 0.55:
+        return gen_item_expr(rng, sc)
     r = rng.random()
     if py and r < 0.25:
         return "python:" + rng.choice(py)
@@ -443,12 +495,24 @@ def gen_element(rng, sc, opts, depth, in_macro=False, in_fill=False, allow_macro
             tal["condition"] = gen_expr(rng, inner, None, 0, opts.py)
         if rng.random() < 0.35:
             var = rng.choice(["i", "j", "it", "row", "i"])
-            tal["repeat"] = "%s %s" % (var, gen_expr(rng, inner, "seq", 0, opts.py))
+            if rng.random() < 0.45:
+                seq = rng.choice(["m1", "m2", "m1", "m2 | e1", "nope | m1"])
+                if var not in inner.items:
+                    inner.items.append(var)
+            else:
+                seq = gen_expr(rng, inner, "seq", 0, opts.py)
+                if var in inner.items:
+                    inner.items.remove(var)
+            tal["repeat"] = "%s %s" % (var, seq)
             if var not in inner.names:
                 inner.names.append(var)
             if var not in inner.reps:
                 inner.reps.append(var)
-        if rng.random() < 0.40:
+            if var in inner.items and rng.random() < 0.7 and "content" not in tal and "replace" not in tal:
+                # the statements evaluated once per iteration, on the repeating element itself
+                kw = "structure " if (opts.structure and rng.random() < 0.15) else ""
+                tal[rng.choice(["content", "content", "replace"])] = kw + gen_item_expr(rng, inner)
+        if rng.random() < 0.40 and "content" not in tal and "replace" not in tal:
             which = rng.choice(["content", "content", "replace"])
             kw = ""
             q = rng.random()
